@@ -362,12 +362,20 @@ type pseudoHeader struct {
 }
 
 func (sc *serverConn) parseHeader(st *stream) (http.Header, pseudoHeader, error) {
-	ftype, err := st.readFrameHeader()
-	if err != nil {
-		return nil, pseudoHeader{}, err
-	}
-	if ftype != frameTypeHeaders {
-		return nil, pseudoHeader{}, &streamError{errH3MessageError, "received other frames when expecting HEADERS"}
+	for {
+		ftype, err := st.readFrameHeader()
+		if err != nil {
+			return nil, pseudoHeader{}, err
+		}
+		if ftype == frameTypeHeaders {
+			break
+		}
+		// Frames of unknown types are ignored, also before the HEADERS frame;
+		// a frame of a known type is unexpected here.
+		// https://www.rfc-editor.org/rfc/rfc9114.html#section-9-2
+		if err := st.discardUnknownFrame(ftype); err != nil {
+			return nil, pseudoHeader{}, err
+		}
 	}
 	header := make(http.Header)
 	var pHeader pseudoHeader
